@@ -607,6 +607,92 @@ def oracle_only(rep, name, exe, cases, oracle):
             rep.violation(hit[0], hit[1], dict(correspondence=name, case=c, impl=l, cmd="harness utf on the case line"), found_input=True)
     return dict(name=name, cases=len(cases), judged=min(len(lines), len(cases)), oracle_hits=hits, impl_rc=rc)
 
+# ----------------------------------------------------------------------------- header charsets through the archive formats
+HDR_CHARSETS = {"CP932": "cp932", "KOI8-R": "koi8_r", "ISO-8859-1": "latin_1", "ISO-8859-2": "iso8859_2", "ISO-8859-5": "iso8859_5",
+                "ISO-8859-15": "iso8859_15", "CP437": "cp437", "CP866": "cp866"}
+
+def charset_repertoire(codec):
+    import unicodedata
+    chars = []
+    for b in range(0x80, 0x100):
+        try:
+            ch = bytes([b]).decode(codec)
+        except UnicodeDecodeError:
+            continue
+        if len(ch) == 1 and ch.isprintable() and unicodedata.normalize("NFC", ch) == ch and ch.encode(codec) == bytes([b]):
+            chars.append(ch)
+    if codec == "cp932":
+        for cp in list(range(0x3041, 0x3094)) + list(range(0x30A1, 0x30F7)) + [0x4E00, 0x65E5, 0x672C, 0x8A9E, 0x6F22, 0x5B57]:
+            ch = chr(cp)
+            try:
+                if ch.encode(codec).decode(codec) == ch:
+                    chars.append(ch)
+            except UnicodeError:
+                pass
+    return chars
+
+def hdrcharset_roundtrip(rep, r, quick):
+    """Names written with hdrcharset=X (UTF-8 locale -> X in the header) and read back with hdrcharset=X (X -> UTF-8)
+    through the archive formats that store the name in that charset must come back unchanged.  Lengths are chosen on
+    both sides of the converter's initial output estimate (characters of one byte in X and three bytes in UTF-8)."""
+    import readcore
+    AE_IFREG = 0o100000
+    mk = vlib.compile_harness("mkArchive", "asan")
+    rd = vlib.compile_harness("readAll", "asan")
+    env = {"VERIF_LOCALE": "C.UTF-8"}
+    specs, metas = [], []
+    for cs, codec in HDR_CHARSETS.items():
+        rep_chars = charset_repertoire(codec)
+        wide = [c for c in rep_chars if len(c.encode("utf-8")) == 3] or rep_chars
+        for fmt in ("ustar", "gnutar", "newc", "zip"):
+            lens = [1, 5, 10, 11, 12, 15, 16, 17, 31, 32, 33, 40, 60, 90] if not quick else [1, 11, 16, 33, 60]
+            for n in lens:
+                for pool in (wide, rep_chars):
+                    name = "".join(r.choice(pool) for _ in range(n)) + ".txt"
+                    if len(name.encode(codec)) > 99:
+                        continue
+                    ents = [["plain.txt", AE_IFREG, 0o644, 1, 2, 1000, b"p", b"", b"", 0, []],
+                            [name.encode("utf-8"), AE_IFREG, 0o644, 1, 2, 1001, b"body", b"", b"", 0, []],
+                            ["last.txt", AE_IFREG, 0o644, 1, 2, 1002, b"l", b"", b"", 0, []]]
+                    specs.append(vfmt([fmt, "", "hdrcharset=" + cs, 512, ents]))
+                    metas.append((cs, fmt, name))
+    rc, lines, err = vlib.run_exe(mk, vlib.write_cases(specs, "c18-hdr-mk.cases"), timeout=900, env=env)
+    if rc != 0 or len(lines) != len(specs):
+        k = min(len(lines), len(specs) - 1)
+        rep.violation("crash:hdrcharset-write:" + vlib.crash_key(err), "writer harness stopped (rc=%s) on %s %s name %r" % (rc, metas[k][1], metas[k][0], metas[k][2]),
+                      dict(case=specs[k][:3000], stderr=err[-3000:]), found_input=True)
+    rcases, rmeta, unavailable = [], [], set()
+    for m, l in zip(metas, lines):
+        v = vparse(l)
+        if v[0] < 0:                      # the option was refused: this libc has no such converter
+            unavailable.add(m[0]); continue
+        if any(isinstance(x, list) and x and x[0] != 0 for x in v[1:-2]) or v[-2] != 0:
+            rep.violation("C18:hdrcharset:%s:%s:write-status" % (m[1], m[0]), "%s with hdrcharset=%s: writing the name %r did not return OK: %s" % (m[1], m[0], m[2], str(v[:-1])[:200]),
+                          dict(format=m[1], charset=m[0], name=m[2]), found_input=True)
+            continue
+        rcases.append(readcore.read_case(v[-1], source=(1,), consume=(0, 4096, 0), noraw=1, options=("hdrcharset=" + m[0]).encode()))
+        rmeta.append(m)
+    path = vlib.write_cases(rcases, "c18-hdr-rd.cases")
+    rc, rl, err = vlib.run_exe(rd, path, timeout=900, env=dict(env, VERIF_TMP=vlib.scratch()))
+    if rc != 0 or len(rl) != len(rcases):
+        k = min(len(rl), len(rcases) - 1)
+        rep.violation("crash:hdrcharset-read:" + vlib.crash_key(err), "reader harness stopped (rc=%s) on %s %s name %r" % (rc, rmeta[k][1], rmeta[k][0], rmeta[k][2]),
+                      dict(case=rcases[k][:3000], stderr=err[-3000:]), found_input=True)
+    n = 0
+    for m, c, l in zip(rmeta, rcases, rl):
+        n += 1
+        d = vparse(l)
+        names = [e[1] for e in d[:-4] if isinstance(e, list) and len(e) > 2]
+        want = [b"plain.txt", m[2].encode("utf-8"), b"last.txt"]
+        if names != want or d[-4] != 1:
+            got = names[1] if len(names) > 1 else None
+            rep.violation("C18:hdrcharset:%s:%s" % (m[1], m[0]),
+                          "%s, hdrcharset=%s: wrote the name %r (%d bytes in UTF-8), read back %r; entries %d, final status %s" %
+                          (m[1], m[0], m[2], len(want[1]), got.decode("utf-8", "replace") if got else None, len(names), d[-4]),
+                          dict(format=m[1], charset=m[0], name=m[2], case=c[:4000], cmd="harness mkArchive (options hdrcharset) then readAll (same option), locale C.UTF-8"),
+                          found_input=True)
+    return n, sorted(unavailable)
+
 def run(rep):
     pr = vlib.proof_part(rep, "C18", translators=["gen_utf"])
     K = gen_consts()
@@ -633,6 +719,12 @@ def run(rep):
             for cs in range(3):
                 ncases.append(vfmt([3, 1, cs, enc8(us) if cs == 0 else enc16(us, cs == 1)]))
     st2 = oracle_only(rep, "utf-nfc", exe, ncases, oracle)
+    try:
+        nhdr, unavailable = hdrcharset_roundtrip(rep, vlib.rng(rep.seed, "C18-hdr"), not thorough)
+    except vlib.BuildError:
+        raise
+    rep.coverage["hdrcharset_roundtrips"] = nhdr
+    rep.coverage["hdrcharsets_without_converter"] = unavailable
     allc = cases + ncases
     rep.coverage.update(
         evaluations=len(allc) + len(corpus),
@@ -654,7 +746,7 @@ def run(rep):
         "(mbsnbytes/utf16nbytes); the harness does not call strncat_from_utf8_to_utf8 on input with NUL (it would not terminate on "
         "ED A0 80 00 .., see C18_utf8_loop_nul_no_progress_refuted)",
         "buffer sizes < 2^31, no allocation failure, no size_t wrap",
-        "iconv-backed charsets (CP932, KOI8-R, ISO-8859-x, CP437, CP866) and the archive formats that embed names are not covered by this check",
+        "iconv-backed charsets (CP932, KOI8-R, ISO-8859-1/2/5/15, CP437, CP866): not modelled; names from each charset's repertoire are written with hdrcharset=X and read back with the same option through ustar, gnutar, cpio newc and zip and must come back unchanged (oracle only)",
     ]
     vlib.proof_verdict(rep, "C18", pr)
 
